@@ -31,6 +31,11 @@
 //                              arrays and dictionaries nested 498..502 deep (the parsers' documented
 //                              limit is 500 containers open at once): round trip up to the limit,
 //                              an error beyond it, in both parsers alike   (nesting.go)
+//   C06/core-raw-eol-roundtrip, C06/core-raw-eol-shortread, C06/cs-raw-eol-grouping,
+//   C06/cs-raw-eol-roundtrip, C06/parsers-disagree-raw-eol
+//                              literal strings with RAW end-of-line bytes inside (CR, CR LF, LF CR, …):
+//                              each parser reads the tree written under one of the two readings (bytes
+//                              kept / end-of-line = LF), both parsers the same one   (raweol.go)
 //   C06/panic, C06/hang
 package c06
 
@@ -259,7 +264,10 @@ func (x runner) checkProgram(in []byte, exp []operation, label string, emit bool
 }
 
 // checkAgree: whatever both parsers accept as ONE operand must get ONE value.
-func (x runner) checkAgree(operand []byte) {
+func (x runner) checkAgree(operand []byte) { x.checkAgreeKey(operand, "C06/parsers-disagree") }
+
+// checkAgreeKey is checkAgree reporting under the given (finer) oracle key.
+func (x runner) checkAgreeKey(operand []byte, key string) {
 	c := x.c
 	a := runObj(operand)
 	runCS([]byte("q"))
@@ -274,7 +282,11 @@ func (x runner) checkAgree(operand []byte) {
 	}
 	c.Count("agree:both-accept")
 	av, bv := a.objs[0].sexpr(), b.ops[0].operands[0].sexpr()
-	remember(c, "C06/parsers-disagree", av == bv, map[string]interface{}{"kind": "agree", "input": hx.Hex(operand)}, func() string {
+	kase := map[string]interface{}{"kind": "agree", "input": hx.Hex(operand)}
+	if key != "C06/parsers-disagree" {
+		kase["key"] = key
+	}
+	remember(c, key, av == bv, kase, func() string {
 		return fmt.Sprintf("operand %s: document parser %s, content-stream parser %s", short(operand), av, bv)
 	})
 }
@@ -591,7 +603,7 @@ func stage(n int) bool {
 func Run(c *hx.Ctx) {
 	x := runner{c}
 	defer keepWitnesses(c)
-	c.Rep.Rule = "object trees: every container skeleton to depth 4 (3 in quick) with ≤2 children per array/dict, leaves cycled over a 3-atom alphabet per type, plus random trees to depth 8 with strings/names over all 256 bytes, int64 limits and dyadic reals; each printed by an ISO 32000-1 §7.2-7.3 printer under 10 spelling policies (minimal/maximal white space, comments, CR/LF/CRLF, literal/escaped/octal/hex strings, #-escaped names, random mix); random operator programs (≤60 operations, all operand types, incl. ' \" T* d0); integer/reference sequences; names and strings whose bytes are exactly a keyword or operator of the format (true false null R obj endobj stream endstream xref trailer startxref f n BI ID EI and all 70 content operators, plus one-byte-longer/shorter/other-case near misses) at every position of arrays, dictionaries (key, value, both; last and followed), nested containers, top-level sequences, next to integers and references, and of operand lists (also before the operator of the same spelling), under the ten policies (buckets kwspelled-*); every document-level input also through io.Readers with short reads (1,2,3,7,4095,… byte pieces, random schedules, last piece with io.EOF); large arrays/dictionaries/object sequences/nested containers/long strings and operator programs whose print crosses 1-3 multiples of the 4096-byte I/O buffer, each slid by a white-space or comment prefix of 0..K-1 bytes (K=40 quick, 130 thorough) so that every token and separator kind lies across offsets 4095/4096, 8191/8192, 12287/12288 in turn (distribution buckets straddle-*); container chains nested 498, 499, 500, 501, 502 deep (thorough: also 1, 2, 37, 250, 490, 510, 1000, 1501) around the parsers' documented limit of 500 containers open at once - all arrays, all dictionaries, alternating either way, random per level; alone or with scalar / container siblings before, after or on both sides of the deep child at every level; innermost an empty container, a scalar of every type, or a string / name made of the bytes that open containers - each as a document-level object and as a content-stream operand under two (thorough: all ten plus a random) spelling policies; 499..1100 sibling containers inside one array, one dictionary, one top-level sequence, one operand list and one operation each (levels are given back); three chains at the limit side by side, in sequence and inside one more container, with a too deep one in no / first / middle / last position; and unbalanced inputs (opening delimiters only to depth 3000 (5000), closing delimiters cut off or in excess) (buckets nest-*); plus a malformed stream (mutated prints and token soup) compared with the model by value-or-error only. non-trivial = parsed without error to a non-empty result."
+	c.Rep.Rule = "object trees: every container skeleton to depth 4 (3 in quick) with ≤2 children per array/dict, leaves cycled over a 3-atom alphabet per type, plus random trees to depth 8 with strings/names over all 256 bytes, int64 limits and dyadic reals; each printed by an ISO 32000-1 §7.2-7.3 printer under 10 spelling policies (minimal/maximal white space, comments, CR/LF/CRLF, literal/escaped/octal/hex strings, #-escaped names, random mix); random operator programs (≤60 operations, all operand types, incl. ' \" T* d0); integer/reference sequences; names and strings whose bytes are exactly a keyword or operator of the format (true false null R obj endobj stream endstream xref trailer startxref f n BI ID EI and all 70 content operators, plus one-byte-longer/shorter/other-case near misses) at every position of arrays, dictionaries (key, value, both; last and followed), nested containers, top-level sequences, next to integers and references, and of operand lists (also before the operator of the same spelling), under the ten policies (buckets kwspelled-*); every document-level input also through io.Readers with short reads (1,2,3,7,4095,… byte pieces, random schedules, last piece with io.EOF); large arrays/dictionaries/object sequences/nested containers/long strings and operator programs whose print crosses 1-3 multiples of the 4096-byte I/O buffer, each slid by a white-space or comment prefix of 0..K-1 bytes (K=40 quick, 130 thorough) so that every token and separator kind lies across offsets 4095/4096, 8191/8192, 12287/12288 in turn (distribution buckets straddle-*); container chains nested 498, 499, 500, 501, 502 deep (thorough: also 1, 2, 37, 250, 490, 510, 1000, 1501) around the parsers' documented limit of 500 containers open at once - all arrays, all dictionaries, alternating either way, random per level; alone or with scalar / container siblings before, after or on both sides of the deep child at every level; innermost an empty container, a scalar of every type, or a string / name made of the bytes that open containers - each as a document-level object and as a content-stream operand under two (thorough: all ten plus a random) spelling policies; 499..1100 sibling containers inside one array, one dictionary, one top-level sequence, one operand list and one operation each (levels are given back); three chains at the limit side by side, in sequence and inside one more container, with a too deep one in no / first / middle / last position; and unbalanced inputs (opening delimiters only to depth 3000 (5000), closing delimiters cut off or in excess) (buckets nest-*); literal strings with raw end-of-line bytes inside - CR, CR LF, LF CR, CR CR, CR LF CR LF, CR CR LF (LF as control) alone, first, last, in the middle, inside balanced parentheses, next to escaped backslashes, line continuations of every kind, \\n \\r and octal escapes and binary bytes - each at every position of arrays, dictionaries, nested containers, object sequences (also next to references) and operand lists (Tj, TJ arrays, ' and \", BDC dictionaries) under the ten policies, through full and short reads, and as the same operand for both parsers, plus random piecewise spellings (raw bytes over all 256 values, raw end-of-lines, named/octal escapes, continuations, nested parentheses) planted in random trees and programs (buckets raweol-*); plus a malformed stream (mutated prints and token soup) compared with the model by value-or-error only. non-trivial = parsed without error to a non-empty result."
 
 	// 1. exhaustive container skeletons ------------------------------------------------
 	depth := c.N(3, 4)
@@ -780,6 +792,11 @@ func Run(c *hx.Ctx) {
 		x.stageNesting()
 	}
 
+	// 12. literal strings with raw end-of-line bytes inside (raweol.go) ------------------------------------
+	if stage(12) && !poisoned {
+		x.stageRawEOL()
+	}
+
 	// 7. malformed / raw stream: value-or-error against the model only ---------------------------
 	if poisoned {
 		c.Note("run cut short after an in-process hang (a goroutine of the implementation is still spinning)")
@@ -888,6 +905,7 @@ func Replay(c *hx.Ctx, kase map[string]interface{}) {
 	s, _ := kase["input"].(string)
 	in := unhex(s)
 	expect, _ := kase["expect"].(string)
+	expect2, _ := kase["expect2"].(string) // raweol.go: the value under the other reading of raw end-of-line bytes
 	key, _ := kase["key"].(string)
 	fail := func(k string, o outcome) {
 		remember(c, k, false, kase, func() string { return fmt.Sprintf("input %s: expected %s, got %s", short(in), expect, o.line) })
@@ -898,7 +916,7 @@ func Replay(c *hx.Ctx, kase map[string]interface{}) {
 		if abnormal(c, o, "obj", in) {
 			return
 		}
-		if expect != "" && o.line != expect {
+		if expect != "" && o.line != expect && (expect2 == "" || o.line != expect2) {
 			fail(key, o)
 		}
 	case "obj", "lex":
@@ -909,7 +927,7 @@ func Replay(c *hx.Ctx, kase map[string]interface{}) {
 		if abnormal(c, o, kind, in) {
 			return
 		}
-		if expect != "" && o.line != expect {
+		if expect != "" && o.line != expect && (expect2 == "" || o.line != expect2) {
 			fail(key, o)
 		}
 	case "cs":
@@ -918,7 +936,7 @@ func Replay(c *hx.Ctx, kase map[string]interface{}) {
 		if abnormal(c, o, kind, in) {
 			return
 		}
-		if expect != "" && o.line != expect {
+		if expect != "" && o.line != expect && (expect2 == "" || o.line != expect2) {
 			fail(key, o)
 		}
 	case "leak":
@@ -930,7 +948,11 @@ func Replay(c *hx.Ctx, kase map[string]interface{}) {
 			fail("C06/cs-operand-leak", o)
 		}
 	case "agree":
-		runner{c}.checkAgree(in)
+		if key != "" {
+			runner{c}.checkAgreeKey(in, key)
+		} else {
+			runner{c}.checkAgree(in)
+		}
 	case "nest-agree":
 		csHex, _ := kase["cs"].(string)
 		cs := unhex(csHex)
